@@ -56,8 +56,18 @@ type BatchCase struct {
 	WaitMs    int          `json:"wait_ms,omitempty"`
 	Post      *string      `json:"post,omitempty"`       // action returned by post (nil: "done")
 	SleepUs   int          `json:"sleep_us,omitempty"`   // free-running: upper bound of random per-call sleep
+	Prelude   *Prelude     `json:"prelude,omitempty"`   // an earlier, free-running run of the SAME node object (state must not leak into the observed run)
+	PostFail  bool         `json:"post_fail,omitempty"` // post returns an error
+	CtxLike   bool         `json:"ctx_like,omitempty"`  // failing attempts return errors that wrap a context error although the batch's context is alive
 	DwellMs   int          `json:"dwell_ms,omitempty"`   // gated: at the first two saturated quiescent points the controller waits this long before looking again (time-triggered behaviour such as submit timeouts gets its chance)
 	ErrResult bool         `json:"err_result,omitempty"` // failing attempts of the Result-style exec function return (NewErrorResult(e), nil) instead of (_, e): exercised by C17 only
+}
+
+// Prelude describes the earlier run.
+type Prelude struct {
+	N        int          `json:"n"`
+	Items    []ItemScript `json:"items"`
+	PostFail bool         `json:"post_fail,omitempty"`
 }
 
 type bItem struct {
@@ -119,6 +129,8 @@ type BatchObs struct {
 	FBCalls     []int    `json:"fb_calls"`
 	FBArgOK     []bool   `json:"fb_arg_ok"`
 	FBErrOK     []bool   `json:"fb_err_ok"`
+	ParkedAtReturn      int `json:"parked_at_return,omitempty"`      // exec calls still parked when Run returned
+	CallbacksAfterReturn int `json:"callbacks_after_return,omitempty"` // callbacks that STARTED after Run had returned
 	Snapshots   int64    `json:"snapshots"`
 	Dump        string   `json:"dump,omitempty"` // goroutine dump taken when a deadlock was diagnosed
 	WallNs      int64    `json:"wall_ns"`
@@ -187,8 +199,20 @@ type batchRun struct {
 var nonceCtr atomic.Int64
 
 func newBatchRun(cs *BatchCase) *batchRun {
-	b := &batchRun{cs: cs, nonce: int(nonceCtr.Add(1)), parked: map[int]*parkedCall{}, cancelSeq: -1}
-	n := cs.N
+	b := &batchRun{cs: cs, parked: map[int]*parkedCall{}}
+	b.rng = rand.New(rand.NewPCG(cs.PSeed, 77))
+	b.reset()
+	return b
+}
+
+// reset prepares the observation state for a run of b.cs (a fresh nonce makes the items of different runs distinguishable).
+func (b *batchRun) reset() {
+	n := b.cs.N
+	b.nonce = int(nonceCtr.Add(1))
+	b.cancelSeq, b.cancelGid = -1, 0
+	b.seq, b.ev, b.started = 0, nil, 0
+	b.inflight.Store(0)
+	b.hw.Store(0)
 	b.attempts = make([]int, n)
 	b.errs = make([][]error, n)
 	b.fbErrs = make([]error, n)
@@ -196,9 +220,8 @@ func newBatchRun(cs *BatchCase) *batchRun {
 	b.fbArgOK = make([]bool, n)
 	b.fbErrOK = make([]bool, n)
 	b.leanAttempts = make([]int, n)
-	b.rng = rand.New(rand.NewPCG(cs.PSeed, 77))
+	b.postCalls, b.postInfl, b.postParked, b.postItemsOK, b.postLenI, b.postLenR, b.postRes, b.leanPost = 0, 0, 0, false, 0, 0, nil, 0
 	b.mkItems()
-	return b
 }
 
 func (b *batchRun) mkItems() {
@@ -348,6 +371,9 @@ func (b *batchRun) exec(ctx context.Context, item any) (any, error) {
 		if a >= b.script(i).K {
 			return &bOut{b.nonce, i, a, false}, nil
 		}
+		if b.cs.CtxLike {
+			return nil, fmt.Errorf("per-attempt timeout (%w): %w", context.Canceled, &itemErr{b.nonce, i, a, false})
+		}
 		return nil, &itemErr{b.nonce, i, a, false}
 	}
 	in := b.inflight.Add(1)
@@ -394,6 +420,9 @@ func (b *batchRun) exec(ctx context.Context, item any) (any, error) {
 	var err error
 	if !ok {
 		err = &itemErr{b.nonce, i, a, false}
+		if b.cs.CtxLike {
+			err = fmt.Errorf("per-attempt timeout (%w): %w", context.DeadlineExceeded, err)
+		}
 		b.mu.Lock()
 		b.errs[i] = append(b.errs[i], err)
 		b.mu.Unlock()
@@ -511,6 +540,9 @@ func (b *batchRun) post(ctx context.Context, s *flyt.SharedStore, items, results
 	b.postRes = append([]flyt.Result(nil), results...)
 	b.mu.Unlock()
 	b.record(BEvent{Kind: "post", Item: -1})
+	if b.cs.PostFail {
+		return "", errPostFail
+	}
 	if b.cs.Post != nil {
 		return flyt.Action(*b.cs.Post), nil
 	}
@@ -609,6 +641,8 @@ func (b *batchRun) build() flyt.Node {
 	panic("build " + cs.Build)
 }
 
+var errPostFail = errors.New("scripted batch post failure")
+
 type fakeDeadlineCtx struct {
 	context.Context
 	done chan struct{}
@@ -636,10 +670,36 @@ func runBatchCase(cs *BatchCase) *BatchObs {
 	b := newBatchRun(cs)
 	node := b.build()
 	obs := &BatchObs{CancelSeq: -1}
+	if cs.Prelude != nil {
+		// an earlier run of the very same node object, free-running; nothing of it may be visible in the observed run
+		pcs := *cs
+		pcs.N, pcs.Items, pcs.PostFail = cs.Prelude.N, cs.Prelude.Items, cs.Prelude.PostFail
+		pcs.Gated, pcs.Cancel, pcs.DwellMs, pcs.Prelude, pcs.Lean = false, nil, 0, nil, false
+		b.cs = &pcs
+		b.reset()
+		pdone := make(chan struct{})
+		go func() {
+			defer close(pdone)
+			defer func() { recover() }()
+			_, _ = flyt.Run(context.Background(), node, flyt.NewSharedStore())
+		}()
+		select {
+		case <-pdone:
+		case <-time.After(30 * time.Second):
+			obs.Incon = "prelude run did not return"
+			return obs
+		}
+		b.cs = cs
+		b.reset()
+	}
 	var ctx context.Context = context.Background()
 	stop := func() {}
 	if cs.Cancel != nil {
 		switch cs.Cancel.Kind {
+		case "cause": // cancelled with a custom cause: ctx.Err() is still context.Canceled
+			c, cf := context.WithCancelCause(context.Background())
+			ctx, b.cancel = c, func() { cf(errors.New("custom cancellation cause")) }
+			stop = b.cancel
 		case "deadline", "pre-deadline":
 			f := &fakeDeadlineCtx{Context: context.Background(), done: make(chan struct{})}
 			ctx, b.cancel = f, f.trip
@@ -669,6 +729,7 @@ func runBatchCase(cs *BatchCase) *BatchObs {
 			}
 		}()
 		action, err = flyt.Run(ctx, node, store)
+		b.record(BEvent{Kind: "returned", Item: -1})
 	}()
 	if cs.Gated {
 		self := quiesce.Self()
@@ -786,6 +847,30 @@ func runBatchCase(cs *BatchCase) *BatchObs {
 				break
 			}
 		}
+		// Run has returned: nothing of this run may still be parked inside a callback. If something is, release it
+		// and watch what else the library still invokes on behalf of a run that is already over.
+		b.mu.Lock()
+		obs.ParkedAtReturn = len(b.parked)
+		b.mu.Unlock()
+		if obs.ParkedAtReturn > 0 && !obs.Deadlock && obs.Incon == "" {
+			for round := 0; round < 50; round++ {
+				b.mu.Lock()
+				for k, pc := range b.parked {
+					close(pc.ch)
+					delete(b.parked, k)
+				}
+				b.mu.Unlock()
+				if _, ok := quiesce.Wait(self, 2*time.Second, &st); !ok {
+					break
+				}
+				b.mu.Lock()
+				left := len(b.parked)
+				b.mu.Unlock()
+				if left == 0 {
+					break
+				}
+			}
+		}
 		obs.Snapshots = st.Snapshots
 		if obs.Deadlock || obs.Incon != "" {
 			// leave the stuck goroutines behind; the child process handles one stuck case and then restarts
@@ -819,6 +904,15 @@ func runBatchCase(cs *BatchCase) *BatchObs {
 	b.mu.Lock()
 	defer b.mu.Unlock()
 	obs.Events = append([]BEvent(nil), b.ev...)
+	retSeq := -1
+	for _, e := range obs.Events {
+		if e.Kind == "returned" {
+			retSeq = e.Seq
+		}
+		if retSeq >= 0 && e.Seq > retSeq && (e.Kind == "exec-start" || e.Kind == "fallback" || e.Kind == "post") {
+			obs.CallbacksAfterReturn++
+		}
+	}
 	obs.HighWater = int(b.hw.Load())
 	obs.PostCalls = b.postCalls
 	obs.PostInfl, obs.PostParked, obs.PostItemsOK = b.postInfl, b.postParked, b.postItemsOK
